@@ -4231,6 +4231,9 @@ class Wallet(object):
             rt.txid = t['txid']
             rt.txhash = t['txhash']
             rt.locktime = t['locktime']
+            for n, i in enumerate(t['inputs']):
+                if 'sequence' in i:
+                    rt.inputs[n].sequence = i['sequence']
             rt.version = t['version'].to_bytes(4, 'big')
             rt.version_int = t['version']
             rt.block_hash = t['block_hash']
